@@ -412,7 +412,7 @@ func c15OutageCheck(c c15OutageCase) *vResult {
 	w := vNewWorld(vWorldOpts{WebUIBackends: []string{"password"}, CertBackends: []string{"password", "TOTP"},
 		Users: map[string]string{vUserAlice: vPwAlice, "root-admin": "x", "carol": "carol-pw"}, AdminUsers: []string{"root-admin"}, EnableLocalTOTP: true, EnableBootstrapOTP: true})
 	defer w.Close()
-	w.vShimPrimary()
+	primaryCtl := w.vShimPrimary()
 	state := w.state
 	w.vSetTOTP(vUserAlice, vTOTPSecretAlice)
 	w.vSetU2F(vUserAlice, vNewSoftU2F("c15out"), 100)
@@ -509,6 +509,11 @@ func c15OutageCheck(c c15OutageCase) *vResult {
 	// let a possibly detached writer finish
 	time.Sleep(30 * time.Millisecond)
 	w.vPrimaryOutage(false)
+	if n := primaryCtl.takeOutageWrites(); n > 0 {
+		// the primary cannot change while it is unreachable; an operation that
+		// went ahead and TRIED to write was not refused
+		res.violate("write-attempted-during-outage:"+c.Op, "%s (%s) during a primary outage was not refused: it attempted %d write operation(s) on the unreachable primary (status %d)", c.Op, c.Method, n, resp.Code)
+	}
 	afterP, afterC := c15Dump(w.vRawPrimary(), false), c15Dump(state.cacheDB, false)
 	if resp.Panic != "" {
 		res.violate("panic:"+c.Op, "handler panicked during the outage: %s", firstLine(resp.Panic))
